@@ -4,24 +4,28 @@ import BeyondVerif.Props.C14
 # C14 — covariances attached later (`sv.cov = c`), and what the constructor's `frame` argument may be
 
 `StateVector.cov` setter: `self._data["cov"] = value; value.orb = self`.  `Cov.orb` setter stores a cartesian copy of
-the state **in the frame the state is expressed in now**; `_orb_frame` (set once in `Cov.__new__`) keeps naming the
-frame of the state the covariance was built for.  Model: `Cov.attach` (Model/Cov.lean; the heap model
-`CovHeap.Heap.attach`, run against the real classes by the correspondence op `att`, does the same on cells).
+the state **in the frame the state is expressed in now** and — since /repo eca9727 — sets `_orb_frame` to that frame.
+Model: `Cov.attach` (Model/Cov.lean; the heap model `CovHeap.Heap.attach`, run against the real classes by the
+correspondence op `att`, does the same on cells: `CovHeap.attach_self`).
 
 What is proved about the code as it is:
 
-* `attach_characterised` — after `sv.cov = c` (state expressed in ANY frame `g`, coordinates `x'`) every later sequence
-  of frame changes ends as `Mt C0 Mtᵀ` with `Mt` computed **as if `x'` were coordinates in `_orb_frame`**: the setter
-  never looks at the frame of its private copy;
-* hence `attach_frame_targets` (regular targets are right whatever `g`: only the date is read), `attach_follows_state`
-  (the clause "a covariance expressed in its state's frame follows that state", for attached-later covariances, full
-  strength), `attach_home_local` (QSW/TNW are right when the state is expressed in the frame the covariance was built in);
-* `attach_reframed_local_partial` — state expressed in another frame `g ≠ _orb_frame`: the code returns
-  `toLocal k x'` where the property requires `toLocal k x' · M(F0→g)`; they differ (Witness/C14.lean
-  `attached_reframed_local_differs`, real code: known finding C14-attach-stale-orb-frame, 0.4 % via MOD/TEME, 1 % via G50).
+* `attach_inv` / `attach_characterised` — after `sv.cov = c` with the state expressed in ANY frame `g` (coordinates
+  `x'`), the covariance is the covariance `M(F0→g) C0 M(F0→g)ᵀ` of a state of frame `g`: every later sequence of frame
+  changes ends as `Mt_g (M C0 Mᵀ) Mt_gᵀ`;
+* hence `attach_frame_targets` (regular targets: `M(F0→f') C0 M(F0→f')ᵀ`), `attach_follows_state` (the clause "a
+  covariance expressed in its state's frame follows that state", for attached-later covariances, full strength),
+  `attach_local` (QSW/TNW: `toLocal k x' · M(F0→g)` — the rotation from the axes the matrix was given in onto the local
+  axes of the attached state);
+* **`attach_path_independent`** (full statement; before eca9727 only `attach_reframed_local_partial` held — known finding
+  C14-attach-stale-orb-frame, now fixed): for the state the covariance was built for, expressed in another frame along
+  which `to_local` is equivariant (every rate-free conversion: `builtin_locEquiv`), every target gives `Mt C0 Mtᵀ` with
+  `Mt = Mt F0 x0 t`, exactly as for a covariance attached at construction.
 
-About the patched setter (`Cov.attachFix`: `Cov.orb` setter also sets `_orb_frame`,
-proposed_fixes/C14-attach-keeps-orb-frame.diff): `attachFix_path_independent` — full path independence for every target.
+History: `attachOld_characterised` says what the setter computed before eca9727 (`Cov.attachOld`: `_orb_frame` stale, the
+re-seated coordinates read as if given in the construction frame); Witness/C14.lean
+`old_attach_reframed_local_differs` is the kernel-checked regression witness guarded by the oracle family
+`attached-later:reframed-state:local-target`.
 -/
 namespace BeyondVerif.C14
 open BeyondVerif.Cov Matrix
@@ -52,56 +56,69 @@ variable {E : RealEnv F n}
 theorem attach_same_state {F0 : F} {x0 : n → ℝ} {C0 : Matrix n n ℝ} {s : St F (Matrix n n ℝ) (n → ℝ)}
     (hs : Inv E F0 x0 C0 s) : attach s F0 x0 = s := by
   obtain ⟨tag, oF, oC, orb, mat⟩ := s
+  have h1 := hs.orbFrame
   have h2 := hs.orbCur
   have h3 := hs.orb
-  simp only at h2 h3
-  simp [attach, h2, h3]
+  simp only at h1 h2 h3
+  simp [attach, h1, h2, h3]
 
-/-- a covariance currently expressed in a regular frame, attached to ANOTHER state `x1` expressed in the frame the
-covariance was built in: it is, from then on, the covariance `C0` of `x1` -/
-theorem attach_home_inv {F0 : F} {x0 x1 : n → ℝ} {C0 : Matrix n n ℝ} {s : St F (Matrix n n ℝ) (n → ℝ)}
-    (hs : Inv E F0 x0 C0 s) (f : F) (htag : s.tag = .frame f) : Inv E F0 x1 C0 (attach s F0 x1) := by
-  refine ⟨hs.orbFrame, rfl, rfl, ?_⟩
+/-- **`sv.cov = c` re-homes the covariance**: `c` currently expressed in a regular frame, attached to a state expressed
+in `g` with coordinates `x'`, is the covariance `M(F0→g) C0 M(F0→g)ᵀ` of a state of frame `g` — the invariant of
+Props/C14.lean holds with `g` as home frame -/
+theorem attach_inv (hL : Laws E) {F0 : F} {x0 : n → ℝ} {C0 : Matrix n n ℝ} {s : St F (Matrix n n ℝ) (n → ℝ)}
+    (hs : Inv E F0 x0 C0 s) (f : F) (htag : s.tag = .frame f) (g : F) (x' : n → ℝ) :
+    Inv E g x' (E.conv F0 g * C0 * (E.conv F0 g)ᵀ) (attach s g x') := by
+  refine ⟨rfl, rfl, rfl, ?_⟩
   have := hs.mat
   simp only [attach, htag, Mt] at this ⊢
-  exact this
+  rw [this, ← hL.conv_comp F0 g f]
+  simp only [transpose_mul, Matrix.mul_assoc]
 
-/-- **What `sv.cov = c` followed by any frame changes computes** (the code as it is).  `c` is any covariance reachable
-from `Cov(sv0, C0, sv0.frame)`, `sv0` in frame `F0`, currently expressed in a regular frame; it is attached to a state
-expressed in frame `g` with coordinates `x'` (`g` arbitrary: `_orb_frame` stays `F0`).  For every later sequence `ts`
-then `t`: the matrix is `Mt C0 Mtᵀ` with `Mt = Mt F0 x' t` — the coordinates `x'` are read as if given in `F0`. -/
+/-- **What `sv.cov = c` followed by any frame changes computes.**  `c` is any covariance reachable from
+`Cov(sv0, C0, sv0.frame)`, `sv0` in frame `F0`, currently expressed in a regular frame; it is attached to a state
+expressed in frame `g` with coordinates `x'`.  For every later sequence `ts` then `t` the matrix is
+`(Mt_g · M(F0→g)) C0 (Mt_g · M(F0→g))ᵀ` with `Mt_g = Mt g x' t`, and the bookkeeping names `g`. -/
 theorem attach_characterised (hL : Laws E) (F0 : F) (x0 : n → ℝ) (C0 : Matrix n n ℝ) (hO0 : LocOrth E x0)
     (pre : List (Tag F)) (f : F) (htag : (run E.env (init F0 x0 C0) pre).tag = .frame f)
     (g : F) (x' : n → ℝ) (hO : LocOrth E x') (ts : List (Tag F)) (t : Tag F) :
     let s := attach (run E.env (init F0 x0 C0) pre) g x'
-    (run E.env s (ts ++ [t])).mat = Mt E F0 x' t * C0 * (Mt E F0 x' t)ᵀ ∧ (run E.env s (ts ++ [t])).orbFrame = F0 ∧
-      (run E.env s (ts ++ [t])).orbCur = g := by
+    (run E.env s (ts ++ [t])).mat = (Mt E g x' t * E.conv F0 g) * C0 * (Mt E g x' t * E.conv F0 g)ᵀ ∧
+      (run E.env s (ts ++ [t])).orbFrame = g ∧ (run E.env s (ts ++ [t])).orbCur = g ∧ (run E.env s (ts ++ [t])).orb = x' := by
   intro s
   have hpre := inv_run hL hO0 pre (inv_init hL F0 x0 C0)
-  have hhome := attach_home_inv (x1 := x') hpre f htag
-  have e : s = { attach (run E.env (init F0 x0 C0) pre) F0 x' with orbCur := g } := rfl
-  rw [e, run_orbCur]
-  have hi := inv_run hL hO (ts ++ [t]) hhome
-  refine ⟨?_, hi.orbFrame, rfl⟩
+  have hi := inv_run hL hO (ts ++ [t]) (attach_inv hL hpre f htag g x')
+  refine ⟨?_, hi.orbFrame, hi.orbCur, hi.orb⟩
   have hm := hi.mat
   rw [run_tag] at hm
-  exact hm
+  rw [hm]
+  simp only [transpose_mul, Matrix.mul_assoc]
 
-/-- **Regular targets are right whatever frame the state was expressed in at `sv.cov = c`**: the conversion between
-regular frames reads the date only. -/
+/-- **Regular targets after `sv.cov = c`**: `M(F0→f') C0 M(F0→f')ᵀ`, whatever frame the state is expressed in. -/
 theorem attach_frame_targets (hL : Laws E) (F0 : F) (x0 : n → ℝ) (C0 : Matrix n n ℝ) (hO0 : LocOrth E x0)
     (pre : List (Tag F)) (f : F) (htag : (run E.env (init F0 x0 C0) pre).tag = .frame f)
     (g : F) (x' : n → ℝ) (hO : LocOrth E x') (ts : List (Tag F)) (f' : F) :
-    (run E.env (attach (run E.env (init F0 x0 C0) pre) g x') (ts ++ [.frame f'])).mat = E.conv F0 f' * C0 * (E.conv F0 f')ᵀ :=
-  (attach_characterised hL F0 x0 C0 hO0 pre f htag g x' hO ts (.frame f')).1
+    (run E.env (attach (run E.env (init F0 x0 C0) pre) g x') (ts ++ [.frame f'])).mat = E.conv F0 f' * C0 * (E.conv F0 f')ᵀ := by
+  have h := (attach_characterised hL F0 x0 C0 hO0 pre f htag g x' hO ts (.frame f')).1
+  simp only [Mt, hL.conv_comp] at h
+  exact h
 
-/-- **QSW/TNW after `sv.cov = c` are those of the attached state when it is expressed in the frame the covariance was
-built in** (`g = _orb_frame`) — in particular for the state the covariance was built for (`x' = x0`). -/
+/-- **QSW/TNW after `sv.cov = c`**: `toLocal k x' · M(F0→g)` — the rotation from the axes the matrix was given in onto the
+local axes of the attached state, whose coordinates in `g` are `x'`. -/
+theorem attach_local (hL : Laws E) (F0 : F) (x0 : n → ℝ) (C0 : Matrix n n ℝ) (hO0 : LocOrth E x0)
+    (pre : List (Tag F)) (f : F) (htag : (run E.env (init F0 x0 C0) pre).tag = .frame f)
+    (g : F) (x' : n → ℝ) (hO : LocOrth E x') (ts : List (Tag F)) (k : Loc) :
+    (run E.env (attach (run E.env (init F0 x0 C0) pre) g x') (ts ++ [.loc k])).mat
+      = (E.toLocal k x' * E.conv F0 g) * C0 * (E.toLocal k x' * E.conv F0 g)ᵀ :=
+  (attach_characterised hL F0 x0 C0 hO0 pre f htag g x' hO ts (.loc k)).1
+
+/-- attached to a state expressed in the frame the covariance was built in: `toLocal k x'` alone -/
 theorem attach_home_local (hL : Laws E) (F0 : F) (x0 : n → ℝ) (C0 : Matrix n n ℝ) (hO0 : LocOrth E x0)
     (pre : List (Tag F)) (f : F) (htag : (run E.env (init F0 x0 C0) pre).tag = .frame f)
     (x' : n → ℝ) (hO : LocOrth E x') (ts : List (Tag F)) (k : Loc) :
-    (run E.env (attach (run E.env (init F0 x0 C0) pre) F0 x') (ts ++ [.loc k])).mat = E.toLocal k x' * C0 * (E.toLocal k x')ᵀ :=
-  (attach_characterised hL F0 x0 C0 hO0 pre f htag F0 x' hO ts (.loc k)).1
+    (run E.env (attach (run E.env (init F0 x0 C0) pre) F0 x') (ts ++ [.loc k])).mat = E.toLocal k x' * C0 * (E.toLocal k x')ᵀ := by
+  have h := attach_local hL F0 x0 C0 hO0 pre f htag F0 x' hO ts k
+  rw [hL.conv_self, Matrix.mul_one] at h
+  exact h
 
 /-- **A covariance attached later and expressed in its state's frame follows that state** (full strength: any frame
 `g` of the state at attachment, any history before and after): once the covariance is tagged with the frame `svf` the
@@ -130,54 +147,58 @@ theorem attach_follows_state (hL : Laws E) (F0 : F) (x0 : n → ℝ) (C0 : Matri
     simp only [v]
     rw [if_neg hc]
 
-/-- **QSW/TNW after `sv.cov = c` with the state expressed in another frame — what the code does** (`_partial`: the
-property requires `toLocal k x' · M(F0→g)`, the rotation from the axes the covariance is expressed in (`F0`) onto the
-local axes of the state whose coordinates in `g` are `x'`; the code applies `toLocal k x'` alone, i.e. it treats a matrix
-expressed in `F0` as if it were expressed in `g`.  The two differ as soon as `M(F0→g) ≠ 1`: Witness/C14.lean
-`attached_reframed_local_differs`; on the real classes: known finding C14-attach-stale-orb-frame). -/
-theorem attach_reframed_local_partial (hL : Laws E) (F0 : F) (x0 : n → ℝ) (C0 : Matrix n n ℝ) (hO0 : LocOrth E x0)
-    (pre : List (Tag F)) (f : F) (htag : (run E.env (init F0 x0 C0) pre).tag = .frame f)
-    (g : F) (x' : n → ℝ) (hO : LocOrth E x') (ts : List (Tag F)) (k : Loc) :
-    (run E.env (attach (run E.env (init F0 x0 C0) pre) g x') (ts ++ [.loc k])).mat = E.toLocal k x' * C0 * (E.toLocal k x')ᵀ :=
-  (attach_characterised hL F0 x0 C0 hO0 pre f htag g x' hO ts (.loc k)).1
-
-/-! ## the patched setter: `Cov.orb` also sets `_orb_frame` -/
-
-/-- with the patch, the covariance attached to a state expressed in `g` is the covariance `M(F0→g) C0 M(F0→g)ᵀ` of a
-state of frame `g`: the invariant of Props/C14.lean holds with `g` as home frame -/
-theorem attachFix_inv (hL : Laws E) {F0 : F} {x0 : n → ℝ} {C0 : Matrix n n ℝ} {s : St F (Matrix n n ℝ) (n → ℝ)}
-    (hs : Inv E F0 x0 C0 s) (f : F) (htag : s.tag = .frame f) (g : F) (x' : n → ℝ) :
-    Inv E g x' (E.conv F0 g * C0 * (E.conv F0 g)ᵀ) (attachFix s g x') := by
-  refine ⟨rfl, rfl, rfl, ?_⟩
-  have := hs.mat
-  simp only [attachFix, htag, Mt] at this ⊢
-  rw [this, ← hL.conv_comp F0 g f]
-  simp only [transpose_mul, Matrix.mul_assoc]
-
-/-- **With the patch, path independence holds for covariances attached later, for every target**: let the state the
-covariance was built for be `x0` in `F0`, and let it be attached while that state is expressed in `g`
-(`x' = M(F0→g) x0`).  If `to_local` is equivariant along `F0 → g` (`toLocal k (M x0) · M = toLocal k x0`: true for every
-rate-free conversion, `builtin_locEquiv`), every later sequence ending in `t` gives `Mt C0 Mtᵀ` with `Mt = Mt F0 x0 t` — the
-conversion `F0 → t`, or the QSW/TNW axes of the inertial state — exactly as for a covariance attached at construction. -/
-theorem attachFix_path_independent (hL : Laws E) (F0 : F) (x0 : n → ℝ) (C0 : Matrix n n ℝ) (hO0 : LocOrth E x0)
+/-- **Path independence for covariances attached later, every target** (full statement since /repo eca9727; before, only
+`attach_reframed_local_partial`: regular targets, and QSW/TNW when `g = F0`).  Let the state the covariance was built for
+be `x0` in `F0`, and let it be attached while that state is expressed in `g` (`x' = M(F0→g) x0`).  If `to_local` is
+equivariant along `F0 → g` (`toLocal k (M x0) · M = toLocal k x0`: true for every rate-free conversion,
+`builtin_locEquiv`), every later sequence ending in `t` gives `Mt C0 Mtᵀ` with `Mt = Mt F0 x0 t` — the conversion
+`F0 → t`, or the QSW/TNW axes of the inertial state — exactly as for a covariance attached at construction. -/
+theorem attach_path_independent (hL : Laws E) (F0 : F) (x0 : n → ℝ) (C0 : Matrix n n ℝ) (hO0 : LocOrth E x0)
     (pre : List (Tag F)) (f : F) (htag : (run E.env (init F0 x0 C0) pre).tag = .frame f)
     (g : F) (hO : LocOrth E (E.conv F0 g *ᵥ x0))
     (hEq : ∀ k, E.toLocal k (E.conv F0 g *ᵥ x0) * E.conv F0 g = E.toLocal k x0)
     (ts : List (Tag F)) (t : Tag F) :
-    (run E.env (attachFix (run E.env (init F0 x0 C0) pre) g (E.conv F0 g *ᵥ x0)) (ts ++ [t])).mat
+    (run E.env (attach (run E.env (init F0 x0 C0) pre) g (E.conv F0 g *ᵥ x0)) (ts ++ [t])).mat
       = Mt E F0 x0 t * C0 * (Mt E F0 x0 t)ᵀ := by
-  have hpre := inv_run hL hO0 pre (inv_init hL F0 x0 C0)
-  have hfix := attachFix_inv hL hpre f htag g (E.conv F0 g *ᵥ x0)
-  have hi := inv_run hL hO (ts ++ [t]) hfix
-  have hm := hi.mat
-  rw [run_tag] at hm
-  rw [hm]
+  have h := (attach_characterised hL F0 x0 C0 hO0 pre f htag g (E.conv F0 g *ᵥ x0) hO ts t).1
   have key : Mt E g (E.conv F0 g *ᵥ x0) t * E.conv F0 g = Mt E F0 x0 t := by
     cases t with
     | frame f' => simp only [Mt]; exact hL.conv_comp F0 g f'
     | loc k => simp only [Mt]; exact hEq k
-  rw [← key]
-  simp only [transpose_mul, Matrix.mul_assoc]
+  rw [key] at h
+  exact h
+
+/-! ## History: the setter before eca9727 (`_orb_frame` not re-seated) -/
+
+/-- a covariance currently expressed in a regular frame, attached (old setter) to a state `x1` expressed in the frame
+the covariance was built in -/
+theorem attachOld_home_inv {F0 : F} {x0 x1 : n → ℝ} {C0 : Matrix n n ℝ} {s : St F (Matrix n n ℝ) (n → ℝ)}
+    (hs : Inv E F0 x0 C0 s) (f : F) (htag : s.tag = .frame f) : Inv E F0 x1 C0 (attachOld s F0 x1) := by
+  refine ⟨hs.orbFrame, rfl, rfl, ?_⟩
+  have := hs.mat
+  simp only [attachOld, htag, Mt] at this ⊢
+  exact this
+
+/-- **What the setter computed before eca9727**: after `sv.cov = c` with the state expressed in ANY frame `g`, every
+later sequence ended as `Mt C0 Mtᵀ` with `Mt = Mt F0 x' t` — the coordinates `x'` (given in `g`) read as if given in `F0`:
+right for regular targets, wrong for QSW/TNW as soon as `M(F0→g) ≠ 1` (regression witness
+`C14W.old_attach_reframed_local_differs`). -/
+theorem attachOld_characterised (hL : Laws E) (F0 : F) (x0 : n → ℝ) (C0 : Matrix n n ℝ) (hO0 : LocOrth E x0)
+    (pre : List (Tag F)) (f : F) (htag : (run E.env (init F0 x0 C0) pre).tag = .frame f)
+    (g : F) (x' : n → ℝ) (hO : LocOrth E x') (ts : List (Tag F)) (t : Tag F) :
+    let s := attachOld (run E.env (init F0 x0 C0) pre) g x'
+    (run E.env s (ts ++ [t])).mat = Mt E F0 x' t * C0 * (Mt E F0 x' t)ᵀ ∧ (run E.env s (ts ++ [t])).orbFrame = F0 ∧
+      (run E.env s (ts ++ [t])).orbCur = g := by
+  intro s
+  have hpre := inv_run hL hO0 pre (inv_init hL F0 x0 C0)
+  have hhome := attachOld_home_inv (x1 := x') hpre f htag
+  have e : s = { attachOld (run E.env (init F0 x0 C0) pre) F0 x' with orbCur := g } := rfl
+  rw [e, run_orbCur]
+  have hi := inv_run hL hO (ts ++ [t]) hhome
+  refine ⟨?_, hi.orbFrame, rfl⟩
+  have hm := hi.mat
+  rw [run_tag] at hm
+  exact hm
 
 /-! ## the constructor argument -/
 
@@ -205,12 +226,12 @@ example (C0 : Matrix (Fin 2) (Fin 2) ℝ) :
     (run_tag exEnv.env _ [] _) true ![0, -1] (exEnv_locOrth _) [.loc .qsw] false
   rw [this]; simp [exEnv]
 
-/-- `exEnv` has a constant `to_local` and is therefore not equivariant; the hypotheses of `attachFix_path_independent`
+/-- `exEnv` has a constant `to_local` and is therefore not equivariant; the hypotheses of `attach_path_independent`
 are met with `g = F0` (the state re-attached in its own frame) -/
 example (C0 : Matrix (Fin 2) (Fin 2) ℝ) (ts : List (Tag Bool)) (t : Tag Bool) :
-    (run exEnv.env (attachFix (run exEnv.env (init false ![1, 0] C0) [.frame true]) false (exEnv.conv false false *ᵥ ![1, 0])) (ts ++ [t])).mat
+    (run exEnv.env (attach (run exEnv.env (init false ![1, 0] C0) [.frame true]) false (exEnv.conv false false *ᵥ ![1, 0])) (ts ++ [t])).mat
       = Mt exEnv false ![1, 0] t * C0 * (Mt exEnv false ![1, 0] t)ᵀ :=
-  attachFix_path_independent exEnv_laws false ![1, 0] C0 (exEnv_locOrth _) [.frame true] true (run_tag exEnv.env _ [] _) false
+  attach_path_independent exEnv_laws false ![1, 0] C0 (exEnv_locOrth _) [.frame true] true (run_tag exEnv.env _ [] _) false
     (exEnv_locOrth _) (fun k => by simp [exEnv]) ts t
 
 end BeyondVerif.C14
